@@ -143,6 +143,41 @@ pub fn pumping(ev: Ev) -> Vec<String> {
         fit(format!("@{}", rep("*@", n)), &mut out);
         fit(format!("@{}", rep("^@", n / 2 + 1)), &mut out);
     }
+    // every function that takes two or more arguments, nested in a LATER argument (and unterminated)
+    {
+        let mut seen: Vec<&str> = Vec::new();
+        for (name, f) in func_names(ev) {
+            if seen.contains(name) {
+                continue;
+            }
+            seen.push(name);
+            if matches!(f.arity(), Arity::Fixed(1)) {
+                continue;
+            }
+            for &n in &[2usize, 4, 8, 11, 12, 14, 16, 20, 24, 32, 40] {
+                fit(format!("{}1{}", rep(&format!("{}(1,", name), n), rep(")", n)), &mut out);
+                fit(rep(&format!("{}(1,", name), n), &mut out);
+                fit(format!("{}1{}", rep(&format!("{}(2,1+", name), n), rep(")", n)), &mut out);
+            }
+        }
+        for &n in &[2usize, 4, 8, 12, 16, 24, 32, 48, 64] {
+            fit(format!("{}1{}", rep("(1+", n), rep(")", n)), &mut out);
+            fit(format!("{}1{}", rep("2*(1+", n), rep(")", n)), &mut out);
+            fit(format!("{}1{}", rep("-(", n), rep(")", n)), &mut out);
+        }
+    }
+    // error sites followed by long tails of multi-byte characters at every byte alignment
+    // (code that formats or slices "the rest of the input" must respect character boundaries)
+    for prefix in ["1)", "2,", "1 2", "(1", "1+", "pow(1", "x", "1)(", "#", "2pi", "@(", "1.2.3"] {
+        for c in ['π', '°', '²', '⁴', '⌊', '⌉', 'é', '€', '\u{1F600}', '\u{3000}'] {
+            for shift in 0..4usize {
+                for &n in &[1usize, 2, 3, 4, 5, 6, 7, 8, 9, 10, 11, 12, 16, 17, 20, 32, 33, 64] {
+                    fit(format!("{}{}{}", prefix, rep("a", shift), rep(&c.to_string(), n)), &mut out);
+                    fit(format!("{}{}{}", prefix, rep("+", shift), rep(&c.to_string(), n)), &mut out);
+                }
+            }
+        }
+    }
     // exactly 256 and 257 characters of the simplest shapes
     out.push(format!("1{}", rep("+1", 127)) + "+");
     out.push(rep("1", 256));
